@@ -314,7 +314,9 @@ partial def runCircuitOps (fresh : OState × CState × SpecC03.Book) (ck : Close
             -- read AFTER the function returned are evaluated, under the new settings
             if !midOnlyTimeout then
               let cfgNew := if ro.runCalls != 0 then (mid.getD cfgSpec) else cfgSpec
-              (joinVerdicts [("C04", verdictC04 cfgSpec cfgNew ro), ("C09", verdictC09 cfgNew rb.lastNotif ro.emits ro.openAfter ro.fanOk),
+              -- C06 with a reconfiguration landing inside the run function: the kill switch was read when Execute started, the
+              -- fallback's settings are the ones in force when the run step has returned
+              (joinVerdicts [("C04", verdictC04 cfgSpec cfgNew ro), ("C06", verdictC06 { cfgNew with disabled := cfgSpec.disabled } op ro), ("C09", verdictC09 cfgNew rb.lastNotif ro.emits ro.openAfter ro.fanOk),
                 ("C12", (verdictC12 ro.emits ro.readings).orElse fun _ => verdictC12o ro.emits ro.readings),
                 ("C03", (gateVerdict rb.ep (gateObservation ck cfgSpec rb.openBefore op ro)).orElse fun _ => if ck == CloserKind.hystrix then SpecC03.verdictExec rb.c03 cfgNew rb.openBefore ro else none)],
                { c03 := rb.c03.afterExec rb.openBefore ro, cc := consecAfter rb.cc ro.emits, thr := rb.thr, ep := epAfterExec rb.ep (gateObservation ck cfgSpec rb.openBefore op ro) ro.emits, openBefore := ro.openAfter, lastNotif := ((notifs ro.emits).getLast?).orElse fun _ => rb.lastNotif, conc := ro.conc, concFb := ro.concFb })
